@@ -1,11 +1,14 @@
 // C04: join / tryjoin / detach against completion. Scenario trials, each with one target fiber and 1-3 actors.
 // A gate keeps the target alive whenever a second use of its handle is generated, so the harness itself never
 // touches a handle after a successful join/tryjoin/detach of a finished fiber (that would be out of contract).
+#include <sys/socket.h>
+
 #include "fb_common.h"
 
-enum { S1_JOIN, S2_TRYJOIN, S3_DETACH, S4_TWO_JOINERS, S5_JOIN_AFTER_DETACH, S6_DETACH_WHILE_JOINED, S7_DOUBLE_DETACH, NSCEN };
+enum { S1_JOIN, S2_TRYJOIN, S3_DETACH, S4_TWO_JOINERS, S5_JOIN_AFTER_DETACH, S6_DETACH_WHILE_JOINED, S7_DOUBLE_DETACH, S8_JOIN_AFTER_IO, NSCEN };
 static const char* const scen_names[NSCEN] = {"S1 join x finish", "S2 repeated tryjoin x finish", "S3 detach x finish", "S4 second joiner while one is blocked",
-                                              "S5 join/tryjoin after detach (alive)", "S6 detach while a joiner is blocked", "S7 double detach"};
+                                              "S5 join/tryjoin after detach (alive)", "S6 detach while a joiner is blocked", "S7 double detach",
+                                              "S8 join of a running fiber after a close-interrupted read"};
 
 typedef struct trial {
   int scen, id;
@@ -23,7 +26,6 @@ typedef struct trial {
 } trial_t;
 
 static vp_counter_t *c_scen[NSCEN], *c_join_first, *c_finish_first, *c_tryjoin_fail, *c_trials;
-static _Atomic long targets_created, targets_expected_reclaimed;
 
 static void delay(uint64_t* rng, int n) {
   int i;
@@ -31,6 +33,31 @@ static void delay(uint64_t* rng, int n) {
     if (vp_rand(rng) & 1) fiber_yield();
     else fb_spin(rng, 300);
   }
+}
+
+static _Atomic long targets_created, targets_expected_reclaimed;
+// a legitimate multi-step history: this fiber's blocking read is ended by another fiber closing the descriptor; whatever
+// the runtime left behind in the fiber must not influence a later join
+static int closer_fd;
+static void* closer_fn(void* a) {
+  const int fd = (int)(intptr_t)a;
+  usleep(2000);
+  close(fd);
+  return NULL;
+}
+static void interrupted_read(fb_slot_t* s) {
+  int sv[2];
+  if (socketpair(AF_UNIX, SOCK_STREAM, 0, sv)) return;
+  fiber_t* c = fiber_create(FB_STACK / 2, closer_fn, (void*)(intptr_t)sv[0]);
+  atomic_fetch_add(&targets_created, 1);
+  char b[4];
+  ssize_t r = 0;
+  FB_BLOCKING(s, "C04 read (ended by close in another fiber)", r = read(sv[0], b, sizeof(b)));
+  (void)r;
+  fiber_join(c, NULL);
+  close(sv[1]);
+  (void)closer_fd;
+  vp_count("join_after_close_interrupted_read", 1);
 }
 
 static void* target_fn(void* a) {
@@ -67,6 +94,7 @@ static void* actor_fn(void* a) {
   delay(&r, role == 0 ? t->pre_actor : t->pre_actor / 2 + (int)(vp_rand(&r) % 4));
   switch (t->scen) {
     case S1_JOIN: {
+      if ((vp_rand(&r) & 7) == 0) interrupted_read(s);
       vp_add(atomic_load(&t->returned) ? c_finish_first : c_join_first, 1);
       int ok = 0;
       FB_BLOCKING(s, "C04 fiber_join", ok = fiber_join(t->target, &res));
@@ -129,6 +157,17 @@ static void* actor_fn(void* a) {
       }
       break;
     }
+    case S8_JOIN_AFTER_IO: {
+      // the joiner's history includes a blocking read that another fiber ended by closing the descriptor; the target is
+      // kept alive until the joiner is inside fiber_join, so the joiner really parks and must get the token
+      interrupted_read(s);
+      int ok = 0;
+      atomic_store(&t->j1_in, 1);
+      FB_BLOCKING(s, "C04 fiber_join", ok = fiber_join(t->target, &res));
+      if (ok == FIBER_SUCCESS) check_success(t, "fiber_join (S8)", res, role);
+      else vp_violation("C04", "join:failed", "trial %d (S8): the only joiner of a joinable, running fiber got an error instead of its result", t->id);
+      break;
+    }
     case S7_DOUBLE_DETACH: {
       const int a1 = fiber_detach(t->target), a2 = fiber_detach(t->target);
       if (a1 != FIBER_SUCCESS || a2 == FIBER_SUCCESS)
@@ -154,7 +193,7 @@ static void* trial_driver(void* a) {
     t->rng = vp_mix(vp_cfg.seed, 40000 + (uint64_t)t->id);
     t->scen = fixed_scen >= 0 ? fixed_scen : (int)(vp_rand(&t->rng) % NSCEN);
     t->token = (void*)(uintptr_t)(0x100000 + (uint64_t)t->id * 16 + 8);
-    t->gated = t->scen >= S4_TWO_JOINERS;
+    t->gated = t->scen >= S4_TWO_JOINERS;  // S4..S8 need the target alive
     t->pre_target = (int)(vp_rand(&t->rng) % 6);
     t->pre_actor = (int)(vp_rand(&t->rng) % 6);
     vp_add(c_scen[t->scen], 1);
@@ -171,6 +210,11 @@ static void* trial_driver(void* a) {
       if (t->scen == S4_TWO_JOINERS) {
         // a failure proves that both actors have made their claim on the handle; only then may the target finish
         while (atomic_load(&t->failures) < 1 && atomic_load(&t->actors_done) < nactors) fiber_yield();
+      } else if (t->scen == S8_JOIN_AFTER_IO) {
+        // let the joiner get into fiber_join (flag, then a few switches) before the target may finish
+        while (!atomic_load(&t->j1_in)) fiber_yield();
+        int g;
+        for (g = 0; g < 6; ++g) fiber_yield();
       } else if (t->scen == S6_DETACH_WHILE_JOINED) {
         // the joiner must be out of fiber_join (error return) before the detached target may finish and vanish
         while (atomic_load(&t->actors_done) < nactors) fiber_yield();
